@@ -186,6 +186,8 @@ def check_pem(case):
             cls.append("nt:key-one-leading-zero-then-high-bit")  # reads like a DER integer carrying its sign byte
     if key in gen.LOOKALIKE_KEYS32:
         cls.append("nt:key-reads-as-text")
+    if key[:2] in (b"\x30\x1e", b"\x02\x1e", b"\x04\x1e", b"\x03\x1e", b"\x06\x1e") or key[:3] in (b"\x30\x81\x1d", b"\x04\x81\x1d") or key[:4] == b"\x30\x82\x00\x1c":
+        cls.append("nt:key-reads-as-der-element")
     cls.append("nt:pem-" + mode)
     if mode == "priv":
         pem = attempt(bits.pem_encode_key, key)
@@ -304,8 +306,12 @@ def accept_cases(draw):
     comp = draw(st.booleans())
     b = bytearray(ec.sec1_encode(pt, comp))
     if kind == "len":
-        how = draw(st.sampled_from(["-1", "+1"]))
-        b = b[:-1] if how == "-1" else b + bytes([draw(st.integers(0, 255))])
+        how = draw(st.sampled_from(["-1", "+1", "no-prefix", "no-prefix"]))
+        if how == "no-prefix":  # bare coordinates (x || y, or x alone): a point, but not a SEC1 encoding
+            b = b[1:]
+            kind = "len-no-prefix"
+        else:
+            b = b[:-1] if how == "-1" else b + bytes([draw(st.integers(0, 255))])
     elif kind == "otherlen":
         # this form's prefix with the other form's length
         if comp:
@@ -347,6 +353,10 @@ def key32():
         st.integers(1, 31).flatmap(lambda z: st.binary(min_size=32 - z, max_size=32 - z).map(lambda b: b"\x00" * z + (b if any(b) else b[:-1] + b"\x01"))),
         st.integers(1, 255).map(lambda v: v.to_bytes(32, "big")),
         gen.lookalike_keys32(),  # keys whose 32 bytes read as text (hex digits, whitespace)
+        # keys whose 32 bytes read as one DER element spanning the rest of the key (SEQUENCE, INTEGER, OCTET STRING,
+        # BIT STRING, OID; short and long length form)
+        st.tuples(st.sampled_from([b"\x30\x1e", b"\x02\x1e", b"\x04\x1e", b"\x03\x1e", b"\x06\x1e", b"\x30\x81\x1d", b"\x30\x82\x00\x1c", b"\x04\x81\x1d"]),
+                  st.binary(min_size=30, max_size=30)).map(lambda t: (t[0] + t[1])[:32]),
         # exactly one leading zero byte: followed by a byte >= 0x80 the key looks like a DER integer with its sign byte
         st.tuples(st.sampled_from([0x80, 0x81, 0xE7, 0xFF, 0x7F, 0x01]), st.binary(min_size=30, max_size=30)).map(lambda t: b"\x00" + bytes([t[0]]) + t[1]),
     )
@@ -394,7 +404,9 @@ def pem_cases(draw):
 
 
 def enum_pem_corpus(tier):
-    for d in (1, 2, 255, 256, 2**200, N - 1, N // 2, 0x80 << 240, (0xE7 << 240) | 1, 0x7F << 240, int.from_bytes(gen.LOOKALIKE_KEYS32[0], "big"), int.from_bytes(gen.LOOKALIKE_KEYS32[2], "big")):
+    for d in (1, 2, 255, 256, 2**200, N - 1, N // 2, 0x80 << 240, (0xE7 << 240) | 1, 0x7F << 240, int.from_bytes(gen.LOOKALIKE_KEYS32[0], "big"), int.from_bytes(gen.LOOKALIKE_KEYS32[2], "big"),
+              int.from_bytes(b"\x30\x1e" + bytes(range(1, 31)), "big"), int.from_bytes(b"\x30\x1e\x02\x01\x01" + bytes(range(1, 28)), "big"),
+              int.from_bytes(b"\x30\x81\x1d" + b"\x5a" * 29, "big"), int.from_bytes(b"\x04\x1e" + b"\x11" * 30, "big"), int.from_bytes(b"\x02\x1e" + b"\x22" * 30, "big")):
         for mode in ("priv", "pub-c", "pub-u", "openssl-priv", "openssl-pub", "openssl-priv-compressed", "openssl-pub-compressed"):
             yield {"d": d, "mode": mode}
 
@@ -403,12 +415,12 @@ def _targets(tier):
     return [
         Target("sec1-roundtrip", check_roundtrip, strategy=lambda tier: st.fixed_dictionaries({"k": gen.scalars_valid()}), budget={"quick": 1200, "thorough": 25000}),
         Target("sec1-accept", check_accept, strategy=lambda tier: accept_cases(), budget={"quick": 4000, "thorough": 80000},
-               required=["nt:len65-prefix02", "nt:len33-prefix04", "nt:hybrid", "nt:x>=p", "nt:nonresidue", "nt:y-negated", "nt:coord-aliased", "nt:coord-in-n..p", "nt:after-decoding-valid-base", "expect-accept", "expect-reject"]),
+               required=["nt:len65-prefix02", "nt:len33-prefix04", "nt:hybrid", "nt:x>=p", "nt:nonresidue", "nt:y-negated", "nt:coord-aliased", "nt:coord-in-n..p", "nt:len-no-prefix", "nt:after-decoding-valid-base", "expect-accept", "expect-reject"]),
         Target("wif", check_wif, strategy=lambda tier: wif_cases(), budget={"quick": 3000, "thorough": 60000},
                required=["nt:key-31-leading-zero-bytes", "nt:suffix", "nt:suffix>=57-bytes", "nt:after-same-key-other-type-network-suffix", "nt:wif-unknown-version", "nt:wif-mutated", "nt:bad-key-len", "nt:bad-key-range"]),
         Target("pem", check_pem, strategy=lambda tier: pem_cases(), budget={"quick": 320, "thorough": 6000},
                required=["nt:pem-priv", "nt:pem-openssl-priv", "nt:pem-openssl-pub", "nt:pem-openssl-priv-compressed", "nt:pem-openssl-pub-compressed", "nt:key-leading-zeros", "nt:pem-der-ends-in-whitespace-or-nul"] if HAVE_OPENSSL else ["nt:pem-priv", "nt:pem-der-ends-in-whitespace-or-nul"]),
-        Target("pem-fixed", check_pem, enumerate_=enum_pem_corpus, shards=4, required=["nt:key-one-leading-zero-then-high-bit", "nt:key-reads-as-text"]),
+        Target("pem-fixed", check_pem, enumerate_=enum_pem_corpus, shards=4, required=["nt:key-one-leading-zero-then-high-bit", "nt:key-reads-as-text", "nt:key-reads-as-der-element"]),
     ]
 
 
